@@ -142,8 +142,6 @@ class Ghost(object):
                     g.claim_name = msg.get("nameplate")
                 elif mtype == "open" and e == "crowded":
                     g.open_mid = msg.get("mailbox")
-                elif mtype == "close" and e == "crowded" and g.open_mid is None:
-                    g.open_mid = msg.get("mailbox")
         # incarnation ends: every `mailboxes` row that disappeared in this step
         if r.before is not None and r.after is not None:
             gone = self.mailbox_keys(r.before) - self.mailbox_keys(r.after)
